@@ -27,7 +27,24 @@ pub fn layout(g: u8, v: u8) -> Option<Layout> {
     match (g, v) {
         (0, 254) => Some(NoObjects),
         (0, _) => Some(Attr),
-        (1, 0) | (2, 0) | (3, 0) | (4, 0) | (10, 0) | (11, 0) | (20, 0) | (21, 0) | (22, 0) | (23, 0) | (30, 0) | (31, 0) | (32, 0) | (33, 0) | (34, 0) | (40, 0) | (42, 0) | (102, 0) => Some(NoObjects),
+        (1, 0)
+        | (2, 0)
+        | (3, 0)
+        | (4, 0)
+        | (10, 0)
+        | (11, 0)
+        | (20, 0)
+        | (21, 0)
+        | (22, 0)
+        | (23, 0)
+        | (30, 0)
+        | (31, 0)
+        | (32, 0)
+        | (33, 0)
+        | (34, 0)
+        | (40, 0)
+        | (42, 0)
+        | (102, 0) => Some(NoObjects),
         (1, 1) | (10, 1) | (80, 1) => Some(Bit),
         (3, 1) => Some(DoubleBit),
         (1, 2) | (3, 2) | (10, 2) => f(1),
@@ -154,11 +171,23 @@ pub fn walk(function: u8, objects: &[u8]) -> Result<Vec<Header>, WalkErr> {
         let v = c.u8()?;
         let lay = layout(g, v).ok_or(WalkErr::UnknownObject(g, v))?;
         let q = c.u8()?;
-        let mut h = Header { g, v, q, range: None, count: None, objects: vec![], raw_len: 0 };
+        let mut h = Header {
+            g,
+            v,
+            q,
+            range: None,
+            count: None,
+            objects: vec![],
+            raw_len: 0,
+        };
         match q {
             0x06 => {}
             0x00 | 0x01 => {
-                let (a, b) = if q == 0 { (c.u8()? as u32, c.u8()? as u32) } else { (c.u16()? as u32, c.u16()? as u32) };
+                let (a, b) = if q == 0 {
+                    (c.u8()? as u32, c.u8()? as u32)
+                } else {
+                    (c.u16()? as u32, c.u16()? as u32)
+                };
                 if b < a {
                     return Err(WalkErr::BadRange(a, b));
                 }
@@ -168,23 +197,38 @@ pub fn walk(function: u8, objects: &[u8]) -> Result<Vec<Header>, WalkErr> {
                     match lay {
                         Layout::NoObjects => {}
                         Layout::Fixed(sz) => {
-                            if is_event_group(g) || g == 12 || g == 41 || g == 50 || g == 51 || g == 52 {
+                            if is_event_group(g)
+                                || g == 12
+                                || g == 41
+                                || g == 50
+                                || g == 51
+                                || g == 52
+                            {
                                 return Err(WalkErr::Undefined(g, v, q));
                             }
                             for i in 0..n {
-                                h.objects.push(Obj { index: Some(a + i as u32), data: c.take(sz)?.to_vec() });
+                                h.objects.push(Obj {
+                                    index: Some(a + i as u32),
+                                    data: c.take(sz)?.to_vec(),
+                                });
                             }
                         }
                         Layout::Bit => {
                             let bytes = c.take((n + 7) / 8)?;
                             for i in 0..n {
-                                h.objects.push(Obj { index: Some(a + i as u32), data: vec![(bytes[i / 8] >> (i % 8)) & 1] });
+                                h.objects.push(Obj {
+                                    index: Some(a + i as u32),
+                                    data: vec![(bytes[i / 8] >> (i % 8)) & 1],
+                                });
                             }
                         }
                         Layout::DoubleBit => {
                             let bytes = c.take((n + 3) / 4)?;
                             for i in 0..n {
-                                h.objects.push(Obj { index: Some(a + i as u32), data: vec![(bytes[i / 4] >> (2 * (i % 4))) & 3] });
+                                h.objects.push(Obj {
+                                    index: Some(a + i as u32),
+                                    data: vec![(bytes[i / 4] >> (2 * (i % 4))) & 3],
+                                });
                             }
                         }
                         Layout::Octets => {
@@ -195,7 +239,10 @@ pub fn walk(function: u8, objects: &[u8]) -> Result<Vec<Header>, WalkErr> {
                                 return Err(WalkErr::ZeroLengthString);
                             }
                             for i in 0..n {
-                                h.objects.push(Obj { index: Some(a + i as u32), data: c.take(v as usize)?.to_vec() });
+                                h.objects.push(Obj {
+                                    index: Some(a + i as u32),
+                                    data: c.take(v as usize)?.to_vec(),
+                                });
                             }
                         }
                         Layout::Attr => {
@@ -207,16 +254,27 @@ pub fn walk(function: u8, objects: &[u8]) -> Result<Vec<Header>, WalkErr> {
                             let len = c.u8()? as usize;
                             let len = if _ty == 255 { len + 256 } else { len };
                             c.take(len)?;
-                            h.objects.push(Obj { index: Some(a), data: objects[s..c.p].to_vec() });
+                            h.objects.push(Obj {
+                                index: Some(a),
+                                data: objects[s..c.p].to_vec(),
+                            });
                         }
                         Layout::FreeFormat => return Err(WalkErr::Undefined(g, v, q)),
                     }
-                } else if matches!(lay, Layout::FreeFormat) {
+                } else if matches!(lay, Layout::FreeFormat)
+                    || is_event_group(g)
+                    || matches!(g, 12 | 41 | 50 | 51 | 52 | 60)
+                {
+                    // a READ by index range is only defined for static data, attributes and octet strings
                     return Err(WalkErr::Undefined(g, v, q));
                 }
             }
             0x07 | 0x08 => {
-                let n = if q == 0x07 { c.u8()? as u32 } else { c.u16()? as u32 };
+                let n = if q == 0x07 {
+                    c.u8()? as u32
+                } else {
+                    c.u16()? as u32
+                };
                 h.count = Some(n);
                 if is_event_group(g) || g == 60 {
                     // limited-quantity request form: no objects
@@ -226,7 +284,10 @@ pub fn walk(function: u8, objects: &[u8]) -> Result<Vec<Header>, WalkErr> {
                     }
                     if let Layout::Fixed(sz) = lay {
                         for _ in 0..n {
-                            h.objects.push(Obj { index: None, data: c.take(sz)?.to_vec() });
+                            h.objects.push(Obj {
+                                index: None,
+                                data: c.take(sz)?.to_vec(),
+                            });
                         }
                     }
                 } else {
@@ -234,7 +295,11 @@ pub fn walk(function: u8, objects: &[u8]) -> Result<Vec<Header>, WalkErr> {
                 }
             }
             0x17 | 0x28 => {
-                let n = if q == 0x17 { c.u8()? as u32 } else { c.u16()? as u32 };
+                let n = if q == 0x17 {
+                    c.u8()? as u32
+                } else {
+                    c.u16()? as u32
+                };
                 h.count = Some(n);
                 if function == READ {
                     return Err(WalkErr::Undefined(g, v, q));
@@ -250,8 +315,15 @@ pub fn walk(function: u8, objects: &[u8]) -> Result<Vec<Header>, WalkErr> {
                     _ => return Err(WalkErr::Undefined(g, v, q)),
                 };
                 for _ in 0..n {
-                    let idx = if q == 0x17 { c.u8()? as u32 } else { c.u16()? as u32 };
-                    h.objects.push(Obj { index: Some(idx), data: c.take(sz)?.to_vec() });
+                    let idx = if q == 0x17 {
+                        c.u8()? as u32
+                    } else {
+                        c.u16()? as u32
+                    };
+                    h.objects.push(Obj {
+                        index: Some(idx),
+                        data: c.take(sz)?.to_vec(),
+                    });
                 }
             }
             0x5B => {
@@ -262,7 +334,10 @@ pub fn walk(function: u8, objects: &[u8]) -> Result<Vec<Header>, WalkErr> {
                 }
                 for _ in 0..n {
                     let len = c.u16()? as usize;
-                    h.objects.push(Obj { index: None, data: c.take(len)?.to_vec() });
+                    h.objects.push(Obj {
+                        index: None,
+                        data: c.take(len)?.to_vec(),
+                    });
                 }
             }
             _ => return Err(WalkErr::UnknownQualifier(q)),
@@ -291,13 +366,35 @@ pub struct Fragment {
 
 impl Fragment {
     pub fn ctrl(&self) -> u8 {
-        (if self.fir { 0x80 } else { 0 }) | (if self.fin { 0x40 } else { 0 }) | (if self.con { 0x20 } else { 0 }) | (if self.uns { 0x10 } else { 0 }) | (self.seq & 0x0F)
+        (if self.fir { 0x80 } else { 0 })
+            | (if self.fin { 0x40 } else { 0 })
+            | (if self.con { 0x20 } else { 0 })
+            | (if self.uns { 0x10 } else { 0 })
+            | (self.seq & 0x0F)
     }
     pub fn request(seq: u8, func: u8, objects: Vec<u8>) -> Fragment {
-        Fragment { fir: true, fin: true, con: false, uns: false, seq: seq & 0x0F, func, iin: None, objects }
+        Fragment {
+            fir: true,
+            fin: true,
+            con: false,
+            uns: false,
+            seq: seq & 0x0F,
+            func,
+            iin: None,
+            objects,
+        }
     }
     pub fn confirm(seq: u8, uns: bool) -> Fragment {
-        Fragment { fir: true, fin: true, con: false, uns, seq: seq & 0x0F, func: 0, iin: None, objects: vec![] }
+        Fragment {
+            fir: true,
+            fin: true,
+            con: false,
+            uns,
+            seq: seq & 0x0F,
+            func: 0,
+            iin: None,
+            objects: vec![],
+        }
     }
     pub fn encode(&self) -> Vec<u8> {
         let mut out = vec![self.ctrl(), self.func];
@@ -323,7 +420,16 @@ impl Fragment {
         } else {
             (None, &bytes[2..])
         };
-        Some(Fragment { fir: c & 0x80 != 0, fin: c & 0x40 != 0, con: c & 0x20 != 0, uns: c & 0x10 != 0, seq: c & 0x0F, func, iin, objects: rest.to_vec() })
+        Some(Fragment {
+            fir: c & 0x80 != 0,
+            fin: c & 0x40 != 0,
+            con: c & 0x20 != 0,
+            uns: c & 0x10 != 0,
+            seq: c & 0x0F,
+            func,
+            iin,
+            objects: rest.to_vec(),
+        })
     }
     pub fn headers(&self) -> Result<Vec<Header>, WalkErr> {
         walk(self.func, &self.objects)
@@ -487,35 +593,106 @@ fn f64le(b: &[u8]) -> f64 {
 
 /// decode one measurement object (static or event) of the eight point types; None = not a measurement object
 pub fn decode_meas(g: u8, v: u8, d: &[u8]) -> Option<Meas> {
-    let m = |flags, val, time, rel| Some(Meas { flags, val, time, relative_time: rel });
+    let m = |flags, val, time, rel| {
+        Some(Meas {
+            flags,
+            val,
+            time,
+            relative_time: rel,
+        })
+    };
     match (g, v) {
         // binary input / output status: packed = value only
         (1, 1) | (10, 1) => m(None, Val::Bool(d[0] & 1 != 0), None, false),
-        (1, 2) | (10, 2) | (2, 1) | (11, 1) => m(Some(d[0]), Val::Bool(d[0] & 0x80 != 0), None, false),
-        (2, 2) | (11, 2) => m(Some(d[0]), Val::Bool(d[0] & 0x80 != 0), Some(rd_u48(&d[1..])), false),
-        (2, 3) => m(Some(d[0]), Val::Bool(d[0] & 0x80 != 0), Some(u16le(&d[1..]) as u64), true),
+        (1, 2) | (10, 2) | (2, 1) | (11, 1) => {
+            m(Some(d[0]), Val::Bool(d[0] & 0x80 != 0), None, false)
+        }
+        (2, 2) | (11, 2) => m(
+            Some(d[0]),
+            Val::Bool(d[0] & 0x80 != 0),
+            Some(rd_u48(&d[1..])),
+            false,
+        ),
+        (2, 3) => m(
+            Some(d[0]),
+            Val::Bool(d[0] & 0x80 != 0),
+            Some(u16le(&d[1..]) as u64),
+            true,
+        ),
         (3, 1) => m(None, Val::Dbl(d[0] & 3), None, false),
         (3, 2) | (4, 1) => m(Some(d[0]), Val::Dbl(d[0] >> 6), None, false),
-        (4, 2) => m(Some(d[0]), Val::Dbl(d[0] >> 6), Some(rd_u48(&d[1..])), false),
-        (4, 3) => m(Some(d[0]), Val::Dbl(d[0] >> 6), Some(u16le(&d[1..]) as u64), true),
+        (4, 2) => m(
+            Some(d[0]),
+            Val::Dbl(d[0] >> 6),
+            Some(rd_u48(&d[1..])),
+            false,
+        ),
+        (4, 3) => m(
+            Some(d[0]),
+            Val::Dbl(d[0] >> 6),
+            Some(u16le(&d[1..]) as u64),
+            true,
+        ),
         // counters
-        (20, 1) | (21, 1) | (22, 1) | (23, 1) => m(Some(d[0]), Val::U32(u32le(&d[1..])), None, false),
-        (20, 2) | (21, 2) | (22, 2) | (23, 2) => m(Some(d[0]), Val::U32(u16le(&d[1..]) as u32), None, false),
+        (20, 1) | (21, 1) | (22, 1) | (23, 1) => {
+            m(Some(d[0]), Val::U32(u32le(&d[1..])), None, false)
+        }
+        (20, 2) | (21, 2) | (22, 2) | (23, 2) => {
+            m(Some(d[0]), Val::U32(u16le(&d[1..]) as u32), None, false)
+        }
         (20, 5) | (21, 9) => m(None, Val::U32(u32le(d)), None, false),
         (20, 6) | (21, 10) => m(None, Val::U32(u16le(d) as u32), None, false),
-        (21, 5) | (22, 5) | (23, 5) => m(Some(d[0]), Val::U32(u32le(&d[1..])), Some(rd_u48(&d[5..])), false),
-        (21, 6) | (22, 6) | (23, 6) => m(Some(d[0]), Val::U32(u16le(&d[1..]) as u32), Some(rd_u48(&d[3..])), false),
+        (21, 5) | (22, 5) | (23, 5) => m(
+            Some(d[0]),
+            Val::U32(u32le(&d[1..])),
+            Some(rd_u48(&d[5..])),
+            false,
+        ),
+        (21, 6) | (22, 6) | (23, 6) => m(
+            Some(d[0]),
+            Val::U32(u16le(&d[1..]) as u32),
+            Some(rd_u48(&d[3..])),
+            false,
+        ),
         // analog input / frozen analog / analog output status
-        (30, 1) | (31, 1) | (32, 1) | (33, 1) | (40, 1) | (42, 1) => m(Some(d[0]), Val::F64(i32le(&d[1..]) as f64), None, false),
-        (30, 2) | (31, 2) | (32, 2) | (33, 2) | (40, 2) | (42, 2) => m(Some(d[0]), Val::F64(i16le(&d[1..]) as f64), None, false),
+        (30, 1) | (31, 1) | (32, 1) | (33, 1) | (40, 1) | (42, 1) => {
+            m(Some(d[0]), Val::F64(i32le(&d[1..]) as f64), None, false)
+        }
+        (30, 2) | (31, 2) | (32, 2) | (33, 2) | (40, 2) | (42, 2) => {
+            m(Some(d[0]), Val::F64(i16le(&d[1..]) as f64), None, false)
+        }
         (30, 3) | (31, 5) => m(None, Val::F64(i32le(d) as f64), None, false),
         (30, 4) | (31, 6) => m(None, Val::F64(i16le(d) as f64), None, false),
-        (30, 5) | (31, 7) | (32, 5) | (33, 5) | (40, 3) | (42, 5) => m(Some(d[0]), Val::F32(f32le(&d[1..])), None, false),
-        (30, 6) | (31, 8) | (32, 6) | (33, 6) | (40, 4) | (42, 6) => m(Some(d[0]), Val::F64(f64le(&d[1..])), None, false),
-        (31, 3) | (32, 3) | (33, 3) | (42, 3) => m(Some(d[0]), Val::F64(i32le(&d[1..]) as f64), Some(rd_u48(&d[5..])), false),
-        (31, 4) | (32, 4) | (33, 4) | (42, 4) => m(Some(d[0]), Val::F64(i16le(&d[1..]) as f64), Some(rd_u48(&d[3..])), false),
-        (32, 7) | (33, 7) | (42, 7) => m(Some(d[0]), Val::F32(f32le(&d[1..])), Some(rd_u48(&d[5..])), false),
-        (32, 8) | (33, 8) | (42, 8) => m(Some(d[0]), Val::F64(f64le(&d[1..])), Some(rd_u48(&d[9..])), false),
+        (30, 5) | (31, 7) | (32, 5) | (33, 5) | (40, 3) | (42, 5) => {
+            m(Some(d[0]), Val::F32(f32le(&d[1..])), None, false)
+        }
+        (30, 6) | (31, 8) | (32, 6) | (33, 6) | (40, 4) | (42, 6) => {
+            m(Some(d[0]), Val::F64(f64le(&d[1..])), None, false)
+        }
+        (31, 3) | (32, 3) | (33, 3) | (42, 3) => m(
+            Some(d[0]),
+            Val::F64(i32le(&d[1..]) as f64),
+            Some(rd_u48(&d[5..])),
+            false,
+        ),
+        (31, 4) | (32, 4) | (33, 4) | (42, 4) => m(
+            Some(d[0]),
+            Val::F64(i16le(&d[1..]) as f64),
+            Some(rd_u48(&d[3..])),
+            false,
+        ),
+        (32, 7) | (33, 7) | (42, 7) => m(
+            Some(d[0]),
+            Val::F32(f32le(&d[1..])),
+            Some(rd_u48(&d[5..])),
+            false,
+        ),
+        (32, 8) | (33, 8) | (42, 8) => m(
+            Some(d[0]),
+            Val::F64(f64le(&d[1..])),
+            Some(rd_u48(&d[9..])),
+            false,
+        ),
         _ => None,
     }
 }
